@@ -531,3 +531,29 @@ def describe_borrow(c):
     if c["kind"] == "view_reuse":
         return "reuses a borrow obtained by `%s` through a mutable typed view after `%s` through the same view" % (c["method"], c["stmt"])
     return "does `%s`" % c["method"]
+
+
+# ----------------------------------------------------------------------------------------------------------------
+def run_c14_extra(tier, seed):
+    """unbounded, design-level argument for the cursor algebra (C14): Apalache discharges that IterCursor!IndInv is inductive.
+    Independent of /repo (it is about the specification); reported in the evidence, never turns the check red."""
+    wd = os.path.join(vlib.WORK, "apalache-c14")
+    os.makedirs(wd, exist_ok=True)
+    shutil.copy(os.path.join(vlib.SPEC, "IterCursor.tla"), wd)
+    done = 0
+    notes = []
+    for args in (["--init=Init", "--inv=IndInv", "--length=0"], ["--init=IndInit", "--inv=IndInv", "--length=1"]):
+        try:
+            r = subprocess.run(["timeout", "300", "apalache-mc", "check"] + args + ["IterCursor.tla"], cwd=wd, stdout=subprocess.PIPE, stderr=subprocess.STDOUT, text=True)
+            ok = "EXITCODE: OK" in r.stdout
+        except Exception as e:
+            ok = False; notes.append(str(e))
+        done += ok
+        if not ok:
+            notes.append("apalache %s did not return OK" % " ".join(args))
+    shutil.rmtree(wd, ignore_errors=True)
+    for n in notes:
+        print("NOTE (C14, unbounded cursor argument): " + n)
+    cov = {"probes": 0, "apalache_inductive_invariant": {"module": "IterCursor.tla", "obligations": 2, "discharged": done,
+                                                         "cmd": "apalache-mc check --init=Init --inv=IndInv --length=0 ; --init=IndInit --inv=IndInv --length=1"}}
+    return ([], cov), None
